@@ -24,6 +24,7 @@ def batch_package():
     Outer = Rec("BtOuter", [("id", P("int32")), ("maybe", Opt(N("BtInner"))), ("v", V(Opt(P("int32")))), ("in", N("BtInner")),
                             ("u", U(((None, P("int32")), (None, P("string")), (None, N("BtInner"))), True))])
     Triv = Rec("BtTrivRec", [("a", P("float32")), ("b", P("float32"))])
+    BtEnum = En("BtEnum", [("lo", 0), ("mid", 300), ("hi", 70000)], None, False, True)
     Gen = Rec("BtGen", [("id", P("int32")), ("value", TP("T")), ("more", V(TP("T")))], ("T",))
     items = [
         ("mapSI", M(P("string"), P("int32"))),
@@ -37,6 +38,12 @@ def batch_package():
         ("optRec", Opt(N("BtInner"))),
         ("triv", N("BtTrivRec")),
         ("str", P("string")),
+        # fixed-size items whose elements are plain data in memory but varint / zig-zag encoded on the wire
+        ("fixedVecInt", V(P("int32"), 3)),
+        ("fixedArrLong", A(P("int64"), ((None, 2), (None, 2)))),
+        ("fixedVecEnum", V(N("BtEnum"), 2)),
+        ("fixedVecDate", V(P("date"), 2)),
+        ("fixedVecFloat", V(P("float32"), 3)),
         ("mapOfMap", M(P("string"), M(P("string"), P("int32")))),
         # a bare type parameter bound to a nullable type: presence is only known after instantiation
         ("genOpt", N("BtGen", (Opt(P("int32")),))),
@@ -46,7 +53,7 @@ def batch_package():
     protos = [Proto("Bt" + n[:1].upper() + n[1:], [("pre", P("uint8")), ("s", S(t)), ("post", P("string"))]) for n, t in items]
     # two streams in one protocol: block bookkeeping must reset between steps
     protos.append(Proto("BtTwo", [("a", S(M(P("string"), P("int32")))), ("b", S(N("BtOuter"))), ("post", P("int32"))]))
-    return Pkg("Batch", [Inner, Outer, Triv, Gen] + protos)
+    return Pkg("Batch", [Inner, Outer, Triv, BtEnum, Gen] + protos)
 
 
 def shaped_items(vg: values.ValueGen, t, n: int, r):
